@@ -47,6 +47,15 @@ def run(pid, t, replay=None):
     txt = open(tcfg).read().replace("CONSTANTS\n", "")
     open(tcfg, "w").write(txt)
     lines = open(tpath).readlines() if os.path.exists(tpath) else []
+    if p.returncode != 0:
+        # the process died in the middle of a write: keep the complete events only
+        def complete(ln):
+            try:
+                json.loads(ln)
+                return ln.endswith("\n")
+            except ValueError:
+                return False
+        lines = [ln for ln in lines if complete(ln)]
     per = 400 if pid == "C09" else 4000
     chunks = []
     for i in range(0, len(lines), per):
